@@ -137,6 +137,11 @@ func (ir *IntrospectionResolver) resolveType(schema *ast.Schema, typ *ast.Type, 
 		case "name":
 			result[f.Alias] = namedType.Name
 		case "fields":
+			// must be non-null for OBJECT and INTERFACE, otherwise null
+			if namedType.Kind != ast.Object && namedType.Kind != ast.Interface {
+				result[f.Alias] = nil
+				continue
+			}
 			includeDeprecated := false
 			if deprecatedArg := f.Arguments.ForName("includeDeprecated"); deprecatedArg != nil {
 				v, err := deprecatedArg.Value.Value(ir.Variables)
@@ -161,22 +166,33 @@ func (ir *IntrospectionResolver) resolveType(schema *ast.Schema, typ *ast.Type, 
 		case "description":
 			result[f.Alias] = namedType.Description
 		case "interfaces":
+			// must be non-null for OBJECT and INTERFACE, otherwise null
+			if namedType.Kind != ast.Object && namedType.Kind != ast.Interface {
+				result[f.Alias] = nil
+				continue
+			}
 			interfaces := []map[string]interface{}{}
 			for _, i := range namedType.Interfaces {
 				interfaces = append(interfaces, ir.resolveType(schema, &ast.Type{NamedType: i}, f.SelectionSet))
 			}
 			result[f.Alias] = interfaces
 		case "possibleTypes":
-			if len(namedType.Types) > 0 {
-				types := []map[string]interface{}{}
-				for _, t := range namedType.Types {
-					types = append(types, ir.resolveType(schema, &ast.Type{NamedType: t}, f.SelectionSet))
-				}
-				result[f.Alias] = types
-			} else {
+			// must be non-null for INTERFACE and UNION, otherwise null
+			if namedType.Kind != ast.Interface && namedType.Kind != ast.Union {
 				result[f.Alias] = nil
+				continue
 			}
+			types := []map[string]interface{}{}
+			for _, t := range schema.GetPossibleTypes(namedType) {
+				types = append(types, ir.resolveType(schema, &ast.Type{NamedType: t.Name}, f.SelectionSet))
+			}
+			result[f.Alias] = types
 		case "enumValues":
+			// must be non-null for ENUM, otherwise null
+			if namedType.Kind != ast.Enum {
+				result[f.Alias] = nil
+				continue
+			}
 			includeDeprecated := false
 			if deprecatedArg := f.Arguments.ForName("includeDeprecated"); deprecatedArg != nil {
 				v, err := deprecatedArg.Value.Value(ir.Variables)
@@ -196,11 +212,14 @@ func (ir *IntrospectionResolver) resolveType(schema *ast.Schema, typ *ast.Type, 
 			}
 			result[f.Alias] = enums
 		case "inputFields":
+			// must be non-null for INPUT_OBJECT, otherwise null
+			if namedType.Kind != ast.InputObject {
+				result[f.Alias] = nil
+				continue
+			}
 			inputFields := []map[string]interface{}{}
 			for _, fi := range namedType.Fields {
-				// call resolveField instead of resolveInputValue because it has
-				// the right type and is a superset of it
-				inputFields = append(inputFields, ir.resolveField(schema, fi, f.SelectionSet))
+				inputFields = append(inputFields, ir.resolveInputField(schema, fi, f.SelectionSet))
 			}
 			result[f.Alias] = inputFields
 		default:
@@ -299,6 +318,16 @@ func (ir *IntrospectionResolver) resolveInputValue(schema *ast.Schema, arg *ast.
 	}
 
 	return result
+}
+
+// resolveInputField answers __InputValue for a field of an input object
+func (ir *IntrospectionResolver) resolveInputField(schema *ast.Schema, field *ast.FieldDefinition, selectionSet ast.SelectionSet) map[string]interface{} {
+	return ir.resolveInputValue(schema, &ast.ArgumentDefinition{
+		Name:         field.Name,
+		Description:  field.Description,
+		Type:         field.Type,
+		DefaultValue: field.DefaultValue,
+	}, selectionSet)
 }
 
 func resolveEnumValue(enum *ast.EnumValueDefinition, selectionSet ast.SelectionSet) map[string]interface{} {
